@@ -58,7 +58,10 @@ Inductive case :=
          (sum prod pubsum : option (list Z)) (eq pubeq : bool)
 (* the four Recover functions on one share slice (private and public) *)
 | CRec (id q t : Z) (sh psh : list (option (Z * option Z)))
-       (sec com : option Z) (pri : option (list Z)) (pub : option (Z * list Z)).
+       (sec com : option Z) (pri : option (list Z)) (pub : option (Z * list Z))
+(* RecoverSecret / RecoverCommit only (large thresholds, where the full
+   interpolation is expensive to recompute) *)
+| CRecS (id q t : Z) (sh psh : list (option (Z * option Z))) (sec com : option Z).
 
 Definition check_case (c : case) : option Z :=
   match c with
@@ -107,6 +110,13 @@ Definition check_case (c : case) : option Z :=
         && ol_eqb (option_map vals (recover_pripoly tn s)) pri
         && okpub in
       if ok then None else Some id
+  | CRecS id q t sh psh sec com =>
+      let tn := Z.to_nat t in
+      let s := map (mk_entry q) sh in
+      let p := map (mk_entry q) psh in
+      if oz_eqb (option_map val (recover_secret tn s)) sec
+         && oz_eqb (option_map val (recover_commit tn p)) com
+      then None else Some id
   end.
 
 Definition mismatches (cs : list case) : list Z :=
